@@ -103,32 +103,21 @@ theorem escape_spec (s : LexSt) (sz : Nat) (t : Char) (k : Nat)
         rcases hrt with ⟨_, rfl⟩ | ⟨h, _⟩
         · rw [htx]; decide
         · exact h
-      split
-      · exact ⟨Nat.le_add_left 1 sz, hlen1, by intro d hd; simp at hd; subst hd; exact hasHl_mkDiag _ _ _ _, clean1 hrc⟩
-      · rename_i pk hpk
-        split
-        · exact ⟨Nat.le_add_left 1 sz, hlen1, by simp, clean1 hrc⟩
-        · rename_i d0 tl
-          split
-          · exact ⟨Nat.le_add_left 1 sz, hlen1, by intro d hd; simp at hd; subst hd; exact hasHl_mkDiag _ _ _ _, clean1 hrc⟩
-          · -- hex digits
-            simp only
-            have hpk' : (d0 :: tl) = (s.rest.drop (sz + 1)).take 2 := by
-              unfold rawPeek at hpk
-              split at hpk
-              · simpa using hpk.symm
-              · cases hpk
-            have hpre : (d0 :: tl).takeWhile isHexDigit <+: s.rest.drop (sz + 1) := by
-              rw [hpk']
-              exact (List.takeWhile_prefix _).trans (List.take_prefix _ _)
-            have hcl2 : Clean ((d0 :: tl).takeWhile isHexDigit) := clean_takeWhile (fun c => isHexDigit_clean) _
-            refine ⟨Nat.le_trans (Nat.le_add_left 1 sz) (Nat.le_add_right _ _), prefix_length_le_drop hpre hlen1, by simp, ?_⟩
-            rw [take_add_prefix hpre]
-            have : Clean (s.rest.take (sz + 1) ++ (d0 :: tl).takeWhile isHexDigit) := by
-              rw [htake]
-              exact clean_append (clean_append hcl (by intro x hx; simp at hx; subst hx; exact hrc)) hcl2
-            rw [advPos_clean _ _ this]
-            simp [List.length_take]; omega
+      simp only [takeWhileFrom]
+      by_cases hds : ((s.rest.drop (sz + 1)).takeWhile isHexDigit).isEmpty = true
+      · simp only [hds, ↓reduceIte]
+        exact ⟨Nat.le_add_left 1 sz, hlen1, by intro d hd; simp at hd; subst hd; exact hasHl_mkDiag _ _ _ _, clean1 hrc⟩
+      · -- hex digits
+        simp only [hds, Bool.false_eq_true, ↓reduceIte]
+        have hpre : (s.rest.drop (sz + 1)).takeWhile isHexDigit <+: s.rest.drop (sz + 1) := List.takeWhile_prefix _
+        have hcl2 : Clean ((s.rest.drop (sz + 1)).takeWhile isHexDigit) := clean_takeWhile (fun c => isHexDigit_clean) _
+        refine ⟨Nat.le_trans (Nat.le_add_left 1 sz) (Nat.le_add_right _ _), prefix_length_le_drop hpre hlen1, by simp, ?_⟩
+        rw [take_add_prefix hpre]
+        have : Clean (s.rest.take (sz + 1) ++ (s.rest.drop (sz + 1)).takeWhile isHexDigit) := by
+          rw [htake]
+          exact clean_append (clean_append hcl (by intro x hx; simp at hx; subst hx; exact hrc)) hcl2
+        rw [advPos_clean _ _ this]
+        simp [List.length_take]; omega
     · split
       · -- octal
         simp only [takeWhileFrom]
